@@ -368,6 +368,13 @@ func localCalls(w *World, ri int, alpha string) []pt.Action {
 					add(pt.Action{Op: "ddel", T: t, K: k})
 				}
 			}
+			if t == "" && strings.Contains(alpha, "emptykey") {
+				// the empty string is a legal member name
+				add(pt.Action{Op: "dput", T: t, K: "", V: "p"})
+				if _, ok := m[""]; ok {
+					add(pt.Action{Op: "ddel", T: t, K: ""})
+				}
+			}
 		}
 		for _, t := range arrs {
 			n := sizes[t]
